@@ -17,14 +17,17 @@ DRIVER = "Drivers/C09.lean"
 REQUIRED_THEOREMS = [
     "SpecVerif.Props.C09." + n
     for n in (
-        "ctor_resolves",
+        "ctor_resolves_partial",
+        "noninit_not_assigned",
         "key_positional",
-        "key_required_iff_no_default",
+        "key_required_iff_no_default_partial",
         "unknown_kw",
         "overflow_exact",
         "owner_ctor_called_once",
         "each_attr_assigned_once",
         "post_init_once_last",
+        "ctor_resolves_full_fails",
+        "key_required_iff_no_default_full_fails",
     )
 ]
 RULE = (
@@ -51,7 +54,7 @@ ASSUMPTIONS = [
     "defaults are fixed points of the attribute's preparer (construction runs defaults through the preparer too)",
 ]
 
-TYPES = {"a": "int", "b": "int", "c": "str", "d": "any", "e": "int", "k": "str", "opts": "any"}
+TYPES = {"a": "int", "b": "int", "c": "str", "d": "any", "e": "int", "k": "str", "opts": "dict"}
 ATTR_POOL = ["a", "b", "c", "d", "e"]
 UNKNOWN = ["zz", "yy"]
 
@@ -102,7 +105,7 @@ def pylit(v):
 # rendering a case to Python source
 # ---------------------------------------------------------------------------
 
-PY_TYPES = {"int": "int", "str": "str", "any": "Any"}
+PY_TYPES = {"int": "int", "str": "str", "any": "Any", "dict": "Any"}
 
 
 def render_class(c, case):
@@ -335,6 +338,89 @@ def show_meta(case, cls):
     return f"spec key={m.key or '-'} ovf={m.init_overflow_attr or '-'} post={post} attrs={','.join(attrs)} dict={dict_s}"
 
 
+def _slot(cdef, a):
+    d = declared(cdef, a)
+    return d if d is not None and d["kind"] != "none" else None
+
+
+def _decl_default(d):
+    if d["kind"] == "lit":
+        return d["default"]
+    return d["factory"] if d.get("factory") is not None else d.get("default")
+
+
+def _nearest(cdefs, mro, a):
+    for k in mro:
+        d = _slot(cdefs[k], a)
+        if d is not None:
+            return _decl_default(d)
+    return None
+
+
+def py_wf(case, ns, cname):
+    """The predicate `wfCall` of Model/C09.lean evaluated on the REAL metadata (compared with the model's verdict)."""
+    from spec_classes import MISSING
+
+    unm = lambda v: None if v is MISSING else v  # noqa: E731
+    cdefs = {c["name"]: c for c in case["classes"]}
+    mroC = cdefs[cname]["mro"]
+    k0 = next((k for k in mroC if cdefs[k]["spec"]), None)
+    if k0 is None:
+        return False, False
+    im = ns[k0].__spec_class__
+    mroK = cdefs[k0]["mro"]
+    gen = all(cdefs[p].get("hand") is None for p in mroK)
+    ok = im.owner is ns[k0] and mroK[0] == k0
+    names = sorted(case["types"])
+    for kk in mroC + mroK:
+        body = {d["name"]: (d["default"] if d["kind"] == "lit" else d.get("default"))
+                for d in cdefs[kk]["decls"] if d["kind"] != "none"}
+        real = {a: unm(v) for a, v in vars(ns[kk]).items() if a in names}
+        ok = ok and real == body
+    for p in mroK[1:]:
+        pm = ns[p].__dict__.get("__spec_class__")
+        if pm is not None:
+            ok = ok and pm.owner is ns[p] and all(a in im.attrs for a in pm.attrs)
+    for a, sp in im.attrs.items():
+        o = sp.owner.__name__
+        om = ns[o].__dict__.get("__spec_class__") if o in cdefs else None
+        ok = ok and (o == k0 or (o in mroK[1:] and om is not None and a in om.attrs))
+        declarer = next((kk for kk in mroC if cdefs[kk]["spec"] and (
+            any(d["name"] == a and d["ann"] for d in cdefs[kk]["decls"]) or cdefs[kk]["ovf"] == a)), None)
+        ok = ok and declarer == o
+        if o in cdefs:
+            d = _slot(cdefs[o], a)
+            ok = ok and sp.init == (d.get("init", True) if d is not None and d["kind"] != "lit" else True)
+        if not sp.init:
+            continue
+        if o not in mroC:
+            ok = False
+            continue
+        pre = mroC[: mroC.index(o)]
+        fac = unm(sp.default_factory() if sp.default_factory is not MISSING else MISSING)
+        dflt = unm(sp.default)
+        for kk in pre:
+            d = _slot(cdefs[kk], a)
+            if d is not None and d["kind"] != "lit" and d.get("factory") is not None:
+                ok = False
+        if all(_slot(cdefs[kk], a) is None for kk in pre):
+            d = _slot(cdefs[o], a)
+            if d is None:
+                ok = ok and fac is None and dflt == _nearest(cdefs, mroC[mroC.index(o) + 1:], a)
+            elif d["kind"] == "lit":
+                ok = ok and fac is None and dflt == d["default"]
+            else:
+                ok = ok and dflt == d.get("default") and fac == d.get("factory")
+    if im.key:
+        sp = im.attrs.get(im.key)
+        if sp is None:
+            ok = False
+        else:
+            ok = ok and sp.init and im.init_overflow_attr != im.key and (
+                sp.has_default == (_nearest(cdefs, mroC, im.key) is not None))
+    return bool(ok), gen
+
+
 def real_lines(case):
     ns = build(case)
     for c in case["classes"]:
@@ -349,7 +435,8 @@ def real_lines(case):
         inst, err, trace, _ = run_call(ns, case, call)
         head = "ok" if err is None else "err " + err
         state = show_state(case, inst) if inst is not None else ""
-        outs.append(f"{head} ;; {state} ;; {','.join(trace)}")
+        wf, gen = py_wf(case, ns, call["cls"])
+        outs.append(f"wf={int(wf)} gen={int(gen)} {head} ;; {state} ;; {','.join(trace)}")
     if dumps is None:
         dumps = [show_meta(case, ns[c["name"]]) for c in case["classes"]]
     return ["ok"] + dumps + outs
@@ -438,11 +525,13 @@ def oracle_call(case, ns, call):
         d = declared(cdefs[k], a)
         return d.get("init", True) if d["kind"] in ("attr", "field") else True
 
-    def nearest_default(a):
+    def nearest_default(a, upto=None):
         """First class along the MRO whose body assigns `a`; `readings` tells whether a
-        factory was skipped because of an annotation-only re-declaration."""
+        factory was skipped because of an annotation-only re-declaration. `upto`: stop after that class
+        (a hand-written constructor's own signature default shadows what comes later in the MRO)."""
         seen_annotation_only = False
-        for k in mro:
+        walk = mro if upto is None else mro[: mro.index(upto) + 1]
+        for k in walk:
             d = declared(cdefs[k], a)
             has, v = decl_default(d)
             if has:
@@ -515,6 +604,10 @@ def oracle_call(case, ns, call):
                 viol.append(f"{a} == {got!r}, hand-written ctor assigns {v!r}")
         return viol
 
+    # attributes that a hand-written constructor of a class other than their owner assigns as well
+    # (a name declared by two classes of the hierarchy): the user's code decides, nothing is claimed
+    hand_classes = [k for k in spec_mro if cdefs[k].get("hand") is not None]
+    clobbered = {p["name"] for k in hand_classes for p in cdefs[k]["hand"] if owner(p["name"]) != k}
     accepted = [a for a in managed if a != ovf and is_init(a)]
     nonconf_names = [n for n in kw if n in managed and n not in accepted]
     unknown = [n for n in kw if n not in managed]
@@ -546,6 +639,7 @@ def oracle_call(case, ns, call):
         k = owner(a)
         hand = cdefs[k].get("hand") if k else None
         if hand is not None and k != k0:
+            v = given.get(a, nearest_default(a, upto=k)[0])
             p = [p for p in hand if p["name"] == a]
             if not p:
                 if a in given or defaults[a] is not None:
@@ -571,14 +665,14 @@ def oracle_call(case, ns, call):
                 must_raise.append(f"non-conforming value for {a}")
                 continue
         exp[a] = v
-    # hand-written parents that own nothing accepted but have required parameters
+    # a hand-written parent constructor only receives the attributes it owns: a required parameter that
+    # nothing supplies makes Python raise TypeError
     for k in spec_mro[1:]:
-        hand = cdefs[k].get("hand")
-        if hand is not None:
-            for p in hand:
-                if p["default"] is None and not (owner(p["name"]) == k and p["name"] in exp and exp[p["name"]] is not None):
-                    if f"{k}.__init__ requires {p['name']}" not in must_raise and p["name"] not in exp:
-                        must_raise.append(f"{k}.__init__ requires {p['name']}")
+        for p in cdefs[k].get("hand") or []:
+            supplied = owner(p["name"]) == k and p["name"] in accepted and (
+                p["name"] in given or nearest_default(p["name"], upto=k)[0] is not None)
+            if p["default"] is None and not supplied:
+                must_raise.append(f"{k}.__init__ requires {p['name']}")
 
     if must_raise:
         if err is None:
@@ -598,11 +692,13 @@ def oracle_call(case, ns, call):
         got = None if got is MISSING else got
         if a in [r[0] for r in readings] and a not in given:
             continue  # accepted reading: either value
+        if a in clobbered:
+            continue
         if got != exp.get(a):
             why = "keyword value" if a in given else "nearest default along the MRO"
             viol.append(f"{a} == {got!r}, expected {exp.get(a)!r} ({why})")
     for a in managed:
-        if a == ovf or a in accepted:
+        if a == ovf or a in accepted or a in clobbered:
             continue
         # init=False attribute: not assigned by the constructor; reads as the class-level default
         if a in inst.__dict__:
@@ -642,7 +738,7 @@ def oracle_call(case, ns, call):
         viol.append(f"constructor of {k0} ran {trace.count('ctor ' + k0)} times")
     for a in managed:
         n = sum(1 for t in trace if t.startswith(f"set {a}=") or t == f"set {a}")
-        if n > 1:
+        if n > 1 and not hand_classes:
             viol.append(f"attribute {a} assigned {n} times")
     return viol
 
@@ -654,7 +750,11 @@ def oracle(case):
         return [f"class construction raised {type(e).__name__}: {e}"]
     viol = []
     for i, call in enumerate(case["calls"]):
-        for v in oracle_call(case, ns, call):
+        vs = oracle_call(case, ns, call)
+        if vs and py_wf(case, ns, call["cls"])[0]:
+            # the theorems cover this call (wfCall holds) and still the property fails: model, WF or oracle is wrong
+            vs = ["[covered by wfCall] " + v for v in vs]
+        for v in vs:
             viol.append(f"call#{i} {call['cls']}(pos={call['pos']}, kw={call['kw']}): {v}")
         if len(viol) > 6:
             break
@@ -665,9 +765,10 @@ def oracle(case):
 # generation
 # ---------------------------------------------------------------------------
 
-CONF = {"int": [5, 7, 103, 250], "str": ["u", "v"], "any": [[1, 2], 9, "w"]}
-NONCONF = {"int": ["bad", [1]], "str": [3, [2]], "any": []}
-DEFAULTS = {"int": [1, 2, 3, 44], "str": ["x", "y"], "any": [[4], 6, [7, 8]]}
+# falsy values (0, "", []) on purpose: a truthiness test in place of `is not MISSING` must show
+CONF = {"int": [5, 7, 103, 250, 0], "str": ["u", "v", ""], "any": [[1, 2], 9, "w", [], 0], "dict": [9, "w", [1, 2]]}
+NONCONF = {"int": ["bad", [1]], "str": [3, [2]], "any": [], "dict": []}
+DEFAULTS = {"int": [1, 2, 3, 44, 0, 0], "str": ["x", "y", "", ""], "any": [[4], 6, [7, 8], [], 0]}
 
 SHAPES = [
     # (name, bases, spec)
@@ -738,6 +839,14 @@ def gen_hierarchy(rng, shape=None):
     used_key = rng.random() < 0.45
     used_ovf = rng.random() < 0.35
     hand_ok = rng.random() < 0.4
+    # decorator arguments (key, overflow) are inherited from the FIRST spec class of the MRO only, so only
+    # classes on the primary chain (following bases[0] up from the last spec class) introduce them
+    primary = []
+    spec_names = [n for n, _, sp in shape if sp]
+    cur = spec_names[-1] if spec_names else None
+    while cur is not None:
+        primary.append(cur)
+        cur = bases_of[cur][0] if bases_of[cur] else None
     for idx, (name, bases, spec) in enumerate(shape):
         mro = c3_mro(name, bases_of)
         inh = []
@@ -761,12 +870,13 @@ def gen_hierarchy(rng, shape=None):
                 c["decls"].append(gen_decl(rng, a, TYPES[a]))
             for a in redef:
                 c["decls"].append(gen_decl(rng, a, TYPES[a], annotated=False))
-            if used_key and "k" not in inh and rng.random() < 0.6:
+            on_primary = name in primary
+            if on_primary and used_key and "k" not in inh and rng.random() < 0.6:
                 c["key"] = "k"
                 c["decls"].insert(rng.randint(0, len(c["decls"])), gen_decl(rng, "k", "str", allow_noninit=False))
             elif "k" in inh and rng.random() < 0.12:
                 c["key"] = "-"
-            if used_ovf and "opts" not in inh and rng.random() < 0.6:
+            if on_primary and used_ovf and "opts" not in inh and rng.random() < 0.6:
                 c["ovf"] = "opts"
                 if rng.random() < 0.4:
                     c["decls"].append({"name": "opts", "ann": True, "kind": "none", "default": None, "factory": None, "init": True})
@@ -793,6 +903,9 @@ def gen_hierarchy(rng, shape=None):
                 # plain base: class-level values that a spec subclass may pick up as defaults
                 for a in rng.sample(ATTR_POOL, rng.randint(1, 2)):
                     c["decls"].append(gen_decl(rng, a, TYPES[a], annotated=False))
+            # a plain class may define / override __post_init__: a plain base hands it down to spec subclasses,
+            # a plain subclass of a spec class overrides the inherited hook (looked up on type(self))
+            c["post"] = rng.random() < 0.35
         inherited[name] = inh + [a for a in names_here if a not in inh]
         classes.append(c)
     # preparer on `a` sometimes; defaults must be fixed points (all DEFAULTS are < 100)
@@ -936,6 +1049,111 @@ def tags(case, real):
             t.append("call:positional")
     return t
 
+
+# ---------------------------------------------------------------------------
+# open known findings (structural matchers)
+# ---------------------------------------------------------------------------
+
+import re as _re
+
+
+def _diamond_targets(case):
+    """Classes whose MRO contains a class X with two bases that share a spec ancestor, where the LATER base's
+    side (classes of its MRO that the earlier base does not have) re-declares or re-defaults an attribute that
+    a shared spec ancestor manages (KF-C09-diamond-second-parent)."""
+    cdefs = {c["name"]: c for c in case["classes"]}
+    bad = set()
+    for x in case["classes"]:
+        bs = x["bases"]
+        for i in range(len(bs)):
+            for j in range(i + 1, len(bs)):
+                m1, m2 = cdefs[bs[i]]["mro"], cdefs[bs[j]]["mro"]
+                shared = [k for k in m2 if k in m1 and cdefs[k]["spec"]]
+                if not shared:
+                    continue
+                managed = {d["name"] for k in shared for d in cdefs[k]["decls"] if d["ann"]}
+                later_only = [k for k in m2 if k not in m1]
+                if any(d["name"] in managed for k in later_only for d in cdefs[k]["decls"]):
+                    bad.add(x["name"])
+    return {c["name"] for c in case["classes"] if any(k in bad for k in c["mro"])}
+
+
+def _plain_key_targets(case):
+    """Classes with a PLAIN class in their MRO that assigns a class attribute named like the key
+    (KF-C09-plain-subclass-key-default): the static signature of the generated constructor does not see it."""
+    cdefs = {c["name"]: c for c in case["classes"]}
+
+    def key_of(k):
+        v = cdefs[k]["key"]
+        if v != "?":
+            return None if v == "-" else v
+        rest = [x for x in cdefs[k]["mro"][1:] if cdefs[x]["spec"]]
+        return key_of(rest[0]) if rest else None
+
+    out = set()
+    for c in case["classes"]:
+        spec = [k for k in c["mro"] if cdefs[k]["spec"]]
+        if not spec:
+            continue
+        key = key_of(spec[0])
+        plain = [k for k in c["mro"] if not cdefs[k]["spec"]]
+        if key and any(d["name"] == key and d["kind"] != "none" for k in plain for d in cdefs[k]["decls"]):
+            out.add(c["name"])
+    return out
+
+
+def _explained(case, entry):
+    m = _re.match(r"call#(\d+) ", entry)
+    if not m:
+        return set()
+    call = case["calls"][int(m.group(1))]
+    out = set()
+    if call["cls"] in _diamond_targets(case):
+        out.add("diamond")
+    if call["cls"] in _plain_key_targets(case) and "raised TypeError" in entry and not call["pos"] and not any(
+            n == "k" for n, _ in call["kw"]):
+        out.add("plainkey")
+    return out
+
+
+def _matcher(which):
+    def match(case, violation):
+        if not violation or violation == ["correspondence"]:
+            return False
+        ex = [_explained(case, v) for v in violation]
+        return all(ex) and any(which in e for e in ex)
+
+    return match
+
+
+KNOWN_MATCHERS = {
+    "diamond_second_parent_default": _matcher("diamond"),
+    "plain_subclass_key_default": _matcher("plainkey"),
+}
+
+WITNESS_DIAMOND = {
+    "types": {"d": "any", "k": "str"}, "preps": [], "dump_first": False,
+    "classes": [
+        {"name": "R", "bases": [], "mro": ["R"], "spec": True, "eager": False, "key": "?", "ovf": "?", "hand": None, "post": False,
+         "decls": [{"name": "d", "ann": True, "kind": "lit", "default": [7, 8], "factory": None, "init": True}]},
+        {"name": "A", "bases": ["R"], "mro": ["A", "R"], "spec": True, "eager": False, "key": "?", "ovf": "?", "hand": None, "post": False, "decls": []},
+        {"name": "B", "bases": ["R"], "mro": ["B", "R"], "spec": True, "eager": False, "key": "?", "ovf": "?", "hand": None, "post": False,
+         "decls": [{"name": "d", "ann": True, "kind": "attr", "default": None, "factory": [1], "init": True}]},
+        {"name": "C", "bases": ["A", "B"], "mro": ["C", "A", "B", "R"], "spec": True, "eager": False, "key": "?", "ovf": "?", "hand": None, "post": False, "decls": []},
+    ],
+    "calls": [{"cls": "C", "pos": [], "kw": []}],
+}
+WITNESS_PLAINKEY = {
+    "types": {"b": "int", "k": "str"}, "preps": [], "dump_first": False,
+    "classes": [
+        {"name": "A", "bases": [], "mro": ["A"], "spec": True, "eager": False, "key": "k", "ovf": "?", "hand": None, "post": False,
+         "decls": [{"name": "k", "ann": True, "kind": "none", "default": None, "factory": None, "init": True},
+                   {"name": "b", "ann": True, "kind": "lit", "default": 3, "factory": None, "init": True}]},
+        {"name": "D", "bases": ["A"], "mro": ["D", "A"], "spec": False, "eager": False, "key": "?", "ovf": "?", "hand": None, "post": False,
+         "decls": [{"name": "k", "ann": False, "kind": "lit", "default": "y", "factory": None, "init": True}]},
+    ],
+    "calls": [{"cls": "D", "pos": [], "kw": []}],
+}
 
 MANIFEST_ENTRY = {
     "level_text": "Lean 4 proof about an executable model of SpecClassMetadata.for_class + spec_class.bootstrap + Attr.lookup_default_value + the generated __init__ signature + InitMethod.init (parents loop, own loop, overflow, __post_init__) and hand-written parent constructors: for class tables of any depth and width satisfying an explicit decidable well-formedness predicate, a successful construction leaves every init-enabled managed attribute equal to the prepared keyword value, else the nearest declared default along the MRO, else unset; the key may be passed positionally and is required iff it has no default; unknown keywords raise TypeError without an overflow attribute, which otherwise receives exactly them; every spec parent's constructor runs exactly once, every attribute is assigned at most once, and __post_init__ runs exactly once and last. The model is tied to /repo on every run: generated hierarchies of depth <= 3 are rendered to source, exec'd, and metadata, class dicts, resulting instance state, exception class and the event trace (constructor entries, mutate_attr entries, __post_init__) are compared line by line with the model.",
